@@ -210,6 +210,109 @@ func (p *c06) Init(tier string, seed int64) {
 			return mkProg(map[string]interface{}{"arr": []int{3, 1, 4, 1, 5}}, f), fmt.Sprintf("forif/cmp/%d", thr)
 		})
 	}
+	// --- a loop record that is kept keeps describing the element it was taken at ---
+	for _, sk := range c06SeqKinds() {
+		if sk.name == "nil" || sk.name == "null-literal" || sk.name == "empty map" {
+			continue
+		}
+		for n := 1; n <= sk.maxN || n == 1; n++ {
+			for at := 0; at < 2; at++ {
+				for form := 0; form < 2; form++ {
+					sk, n, at, form := sk, n, at, form
+					p.enum = append(p.enum, func() (*Program, string) {
+						seq, ctx := sk.build(n)
+						keepProbe := func() []gen.Node {
+							var out []gen.Node
+							for _, m := range []string{"index", "revindex0", "first", "last", "length"} {
+								out = append(out, pr(attr(nm("keep"), m)), tx(","))
+							}
+							return out
+						}
+						f := &gen.NFor{Val: "v", Seq: seq}
+						var src gen.Expr = nm("loop")
+						if form == 1 {
+							src = attr(nm("loop"), "parent")
+						}
+						f.Body = append(f.Body, &gen.NIf{Conds: []gen.Expr{&gen.EBin{Op: "==", L: attr(nm("loop"), "index0"), R: num(at)}},
+							Bodies: [][]gen.Node{{&gen.NSet{Name: "keep", X: src}}}})
+						f.Body = append(f.Body, tx("("))
+						f.Body = append(f.Body, pr(nm("v")), tx(":"))
+						f.Body = append(f.Body, &gen.NIf{Conds: []gen.Expr{&gen.EBin{Op: ">=", L: attr(nm("loop"), "index0"), R: num(at)}}, Bodies: [][]gen.Node{keepProbe()}})
+						f.Body = append(f.Body, tx(")"))
+						var after []gen.Node
+						if at < n || (sk.maxN == 0 && at == 0) {
+							after = append([]gen.Node{tx("after:")}, keepProbe()...)
+						}
+						init := &gen.NSet{Name: "keep", X: num(0)}
+						if form == 1 {
+							outer := &gen.NFor{Val: "o", Seq: &gen.EArr{Els: []gen.Expr{str("x"), str("y"), str("z")}}, Body: []gen.Node{tx("["), pr(nm("o")), f, tx("]")}}
+							return mkProg(ctx, append([]gen.Node{init, outer}, after...)...), fmt.Sprintf("for/keep-parent/%s/n=%d/at=%d", sk.name, n, at)
+						}
+						return mkProg(ctx, append([]gen.Node{init, tx("<"), f, tx(">")}, after...)...), fmt.Sprintf("for/keep/%s/n=%d/at=%d", sk.name, n, at)
+					})
+				}
+			}
+		}
+	}
+	// --- inline if whose condition reads the loop record of the element under test ---
+	for n := 1; n <= 5; n++ {
+		for mask := 0; mask < 1<<n; mask++ {
+			for form := 0; form < 3; form++ {
+				n, mask, form := n, mask, form
+				p.enum = append(p.enum, func() (*Program, string) {
+					flags := make([]interface{}, n+1)
+					els := make([]gen.Expr, n)
+					for i := 0; i < n; i++ {
+						flags[i] = mask&(1<<i) != 0
+						els[i] = str("e" + strconv.Itoa(i))
+					}
+					flags[n] = false
+					var cond gen.Expr
+					switch form {
+					case 0:
+						cond = &gen.EAttr{X: nm("flags"), Key: attr(nm("loop"), "index0")}
+					case 1: // revindex: position counted from the end
+						cond = &gen.EAttr{X: nm("flags"), Key: &gen.EGroup{X: &gen.EBin{Op: "-", L: num(n), R: attr(nm("loop"), "revindex")}}}
+					default: // first / last
+						cond = &gen.EBin{Op: "or", L: &gen.EGroup{X: &gen.EBin{Op: "and", L: attr(nm("loop"), "first"), R: &gen.EAttr{X: nm("flags"), Key: num(0)}}},
+							R: &gen.EGroup{X: &gen.EBin{Op: "and", L: attr(nm("loop"), "last"), R: &gen.EAttr{X: nm("flags"), Key: num(n - 1)}}}}
+					}
+					f := &gen.NFor{Val: "v", Seq: &gen.EArr{Els: els}, Cond: cond, Body: []gen.Node{tx("("), pr(nm("v")), tx(")")}}
+					// nested in an outer loop of another length, so that the enclosing loop's record is a different one
+					outer := &gen.NFor{Val: "o", Seq: &gen.EArr{Els: []gen.Expr{str("x"), str("y")}}, Body: []gen.Node{tx("["), pr(nm("o")), f, tx("]")}}
+					return mkProg(map[string]interface{}{"flags": flags}, tx("<"), f, tx(">"), outer), fmt.Sprintf("forif/loopcond/n=%d/mask=%d/form=%d", n, mask, form)
+				})
+			}
+		}
+	}
+	// --- non-iterables must be an error, wherever the loop stands ---
+	for _, sk := range c06SeqKinds() {
+		if sk.name == "nil" || sk.name == "null-literal" || sk.name == "empty map" {
+			continue
+		}
+		for ni, v := range []interface{}{5, "str", gen.NewThing()} {
+			for where := 0; where < 3; where++ {
+				sk, ni, v, where := sk, ni, v, where
+				p.enum = append(p.enum, func() (*Program, string) {
+					seq, ctx := sk.build(2)
+					if ctx == nil {
+						ctx = map[string]interface{}{}
+					}
+					ctx["bad"] = v
+					bad := &gen.NFor{Val: "w", Seq: nm("bad"), Body: []gen.Node{tx("x")}}
+					var inner gen.Node = bad
+					switch where {
+					case 1:
+						inner = &gen.NIf{Conds: []gen.Expr{&gen.EBool{V: true}}, Bodies: [][]gen.Node{{tx("i"), bad}}}
+					case 2:
+						inner = &gen.NFor{Val: "u", Seq: &gen.EArr{}, Body: []gen.Node{tx("never")}, HasElse: true, Else: []gen.Node{tx("e"), bad}}
+					}
+					outer := &gen.NFor{Key: "k", Val: "v", Seq: seq, Body: []gen.Node{tx("("), pr(nm("v")), inner, tx(")")}}
+					return mkProg(ctx, tx("<"), outer, tx(">")), fmt.Sprintf("for/noniterable-in/%s/%d/%d", sk.name, ni, where)
+				})
+			}
+		}
+	}
 	// --- non-iterables must be an error ---
 	for ni, v := range []interface{}{5, 2.5, "str", true, struct{ A int }{1}, gen.NewThing()} {
 		ni, v := ni, v
@@ -240,6 +343,11 @@ func (g *c06gen) node(depth int) gen.Node {
 	g.seq++
 	id := strconv.Itoa(g.seq)
 	if depth <= 0 || r.Intn(5) == 0 {
+		if depth > 0 && r.Intn(40) == 0 {
+			// a loop over a number: the program must fail here, whatever encloses it
+			g.shape = append(g.shape, "bad")
+			return &gen.NFor{Val: "w" + id, Seq: nm("n1"), Body: []gen.Node{tx("never")}}
+		}
 		if g.loops > 0 && r.Intn(2) == 0 {
 			return pr(attr(nm("loop"), loopMeta[r.Intn(len(loopMeta))]))
 		}
@@ -282,6 +390,25 @@ func (g *c06gen) node(depth int) gen.Node {
 	default:
 		f.Seq = nm("arr2")
 		ln = 0
+	}
+	if r.Intn(4) == 0 {
+		// an inline condition over the element and the loop record; loop fields of a filtered loop are not printed
+		// below it (stick and Twig count differently there)
+		switch r.Intn(3) {
+		case 0:
+			f.Cond = &gen.EBin{Op: "==", L: &gen.EGroup{X: &gen.EBin{Op: "%", L: attr(nm("loop"), "index0"), R: num(2)}}, R: num(r.Intn(2))}
+		case 1:
+			f.Cond = &gen.EUn{Op: "not", X: attr(nm("loop"), []string{"first", "last"}[r.Intn(2)])}
+		default:
+			f.Cond = &gen.EBin{Op: "or", L: &gen.EGroup{X: g.cond()}, R: &gen.EGroup{X: &gen.EBin{Op: "<", L: attr(nm("loop"), "revindex"), R: num(2)}}}
+		}
+		saved := g.loops
+		g.loops = 0
+		f.Body = append([]gen.Node{tx("(" + id + ":"), pr(nm(f.Val))}, g.body(depth-1)...)
+		f.Body = append(f.Body, tx(")"))
+		g.loops = saved
+		g.shape = append(g.shape, fmt.Sprintf("forif%d", ln))
+		return f
 	}
 	g.loops++
 	f.Body = append([]gen.Node{tx("(" + id + ":"), pr(nm(f.Val))}, g.body(depth-1)...)
